@@ -9,8 +9,13 @@ Next == /\ a2 = 0 /\ b0 = 0 /\ b1 = 0 /\ b2 = 0
         /\ \E x \in Word, y0 \in BSet, y1 \in BSet, y2 \in BSet : a2' = x /\ b0' = y0 /\ b1' = y1 /\ b2' = y2 /\ (x # 0 \/ y0 # 0 \/ y1 # 0 \/ y2 # 0)
         /\ UNCHANGED <<a0, a1>>
 Dot == (a0 * b0 + a1 * b1 + a2 * b2) % P
-Chain2 == Val(Spmv2(a0, a1, a2, b0, b1, b2)) = Dot /\ Val(ColSum(a0, a1, a2, b0)) = (a0 + a1 + a2 + b0) % P
-Chain512 == Val(Spmv512(a0, a1, a2, b0, b1, b2)) = Dot /\ Val(ColSum512(a0, a1, a2, b0)) = (a0 + a1 + a2 + b0) % P
+Sum4 == (a0 + a1 + a2 + b0) % P
+Chain2 == /\ Val(Spmv2(a0, a1, a2, b0, b1, b2)) = Dot /\ Val(Spmv2A(a0, a1, a2, b0, b1, b2)) = Dot
+          /\ Val(ColSum(a0, a1, a2, b0)) = Sum4 /\ Val(ColSumA(a0, a1, a2, b0)) = Sum4 /\ Val(ColSum8(a0, a1, a2, b0)) = Sum4
+Chain512 == /\ Val(Spmv512(a0, a1, a2, b0, b1, b2)) = Dot
+            /\ Val(ColSum512(a0, a1, a2, b0)) = Sum4 /\ Val(ColSum8_512(a0, a1, a2, b0)) = Sum4
+(* non-vacuity: with LegacyBC the pinned chain through add_avx512_b_c is required to be exact - and is not *)
+ChainLegacy == LegacyBC => (Val(Spmv512Legacy(a0, a1, a2, b0, b1, b2)) = Dot /\ Val(ColSum512Legacy(a0, a1, a2, b0)) = Sum4)
 (* the high parts of the three 72-bit products are added as integers and must stay below Phi: at W = 32 this is 3*(2^8-1) < 2^32; at reduced width the coefficients are bounded accordingly *)
 Chain8 == (b0 < Phi /\ b1 < Phi /\ b2 < Phi /\ b0 + b1 + b2 <= Phi) => (Val(Spmv8(a0, a1, a2, b0, b1, b2)) = Dot /\ Val(Spmv8_512(a0, a1, a2, b0, b1, b2)) = Dot)
 ASSUME LayoutOk4
